@@ -265,6 +265,7 @@ pub fn gen_c12(rng: &mut Rng, tier: Tier) -> NetProgram {
         }
         let stages = if rng.chance(1, 2) { 1 } else { 1 + rng.below(4) as u8 };
         let mut spec = ModSpec { name: (*rng.pick(&names)).to_string(), parent, stages, panic_at: 255, ..Default::default() };
+        spec.scoped_build = d >= 2 && rng.chance(1, 6);
         if rng.chance(1, 2) {
             spec.beats.push(Beat { at_ns: rng.below(10) * SEC, acts: vec![Act::QueryTree] });
         }
